@@ -21,6 +21,9 @@ import (
 	"verif/harness/lib"
 )
 
+// strictTwin: compare the final database with the undisturbed twin key by key, nothing left out
+const strictTwin = true
+
 const btBatch = 10 // blocktransactions.batchSize (unexported); a wrong value shows up as a model mismatch
 
 // ---- abstraction of a database image into the model's block states -------------------------
@@ -195,6 +198,7 @@ func runMigrator(m migration.Migration, state []byte, d *memory.Database, p btPl
 	if hungOnce.Load() {
 		out.ret = "hang"
 		out.errText = "skipped: an earlier run of the migration did not return"
+		out.final = d // the untouched pre-image: callers abstract / dump it without a nil check
 		return out
 	}
 	maxWait := 120 * time.Second
@@ -222,6 +226,7 @@ func runMigrator(m migration.Migration, state []byte, d *memory.Database, p btPl
 		if sticky {
 			hungOnce.Store(true)
 		}
+		out.final = d // the hung run's goroutines may still write to `work`
 		return out
 	case out.ret == "panic":
 		out.errText = err.Error()
@@ -267,8 +272,39 @@ func (m *btModel) transition(c chainSpec, pre, post *memory.Database, kind, ret,
 	m.transitionW(c, pre, post, kind, ret, where, false)
 }
 
+// foreignKeysUnchanged: the migration may only touch its three buckets (the two old ones, the combined one);
+// every other key — headers, the hash -> (block, index) and L1-message lookups, state, the runner's records —
+// must be exactly what it was (the frame condition the lookup theorem and the per-migration composition assume).
+func foreignKeysUnchanged(pre, post *memory.Database) (bool, string) {
+	own := map[byte]bool{db.BlockTransactions.Key()[0]: true, db.TransactionsByBlockNumberAndIndex.Key()[0]: true,
+		db.ReceiptsByBlockNumberAndIndex.Key()[0]: true}
+	a, b := dump(pre), dump(post)
+	for k, v := range a {
+		if own[k[0]] {
+			continue
+		}
+		if w, ok := b[k]; !ok || w != v {
+			return false, fmt.Sprintf("key %x (bucket %d) changed or vanished", k, k[0])
+		}
+	}
+	for k := range b {
+		if _, ok := a[k]; !ok && !own[k[0]] {
+			return false, fmt.Sprintf("new key %x (bucket %d)", k, k[0])
+		}
+	}
+	return true, ""
+}
+
 // transitionW: wfail = the run saw a failed batch write (the model step is `writeFail`).
 func (m *btModel) transitionW(c chainSpec, pre, post *memory.Database, kind, ret, where string, wfail bool) {
+	if kind != "return" {
+		// crash images are prefixes of runs whose returns are checked
+	} else if ok, why := foreignKeysUnchanged(pre, post); !ok {
+		m.res.Mismatch(lib.Mismatch{Sig: "blocktx-writes-outside-its-buckets", Input: map[string]any{"spec": c, "where": where}, Model: "unchanged", Impl: why})
+		m.res.Violate(lib.Violation{Sig: "blocktx-changes-data-of-other-buckets",
+			What:   "blocktransactions.Migrate changed a key outside the transaction / receipt / combined buckets (" + where + "): " + why,
+			Replay: btReplay{c, "build spec, run Migrate (" + where + "), compare every key outside buckets 'transactions by block and index', 'receipts by block and index', 'block transactions'", 0}})
+	}
 	a0 := abstractImage(pre, c)
 	a1 := abstractImage(post, c)
 	ht := heightTok(pre)
@@ -278,11 +314,19 @@ func (m *btModel) transitionW(c chainSpec, pre, post *memory.Database, kind, ret
 	}
 	first := m.ask("bt.first")
 	tok := ""
+	retFull := ret // "failed-nil": Migrate returned (nil, err) — only a failing clearOldBuckets does
+	if ret == "failed-nil" {
+		ret = "failed"
+	}
+	same01 := strings.Join(a0, " ") == strings.Join(a1, " ")
 	switch first {
 	case "noheight", "none", "error":
-		if kind == "crash" {
-			tok = "F"
-		} else {
+		switch {
+		case kind == "crash" && same01:
+			tok = "F" // died before the back-fill batch was committed
+		case kind == "crash":
+			tok = "FB" // died after the back-fill batch, before / inside clearOldBuckets
+		default:
 			tok = "P"
 		}
 	default:
@@ -306,20 +350,41 @@ func (m *btModel) transitionW(c chainSpec, pre, post *memory.Database, kind, ret
 		case kind == "crash":
 			tok = "C*:" + string(bits)
 		case ret == "rerun" && hi == nr:
-			// cancellation observed at the loop head after a complete pass
-			tok = "P H"
+			// cancellation observed at the loop head after a complete pass. The committed ranges are read
+			// off the images (model step passSkip): a range WITHOUT old entries may have been left as it was
+			// (a committer that elides a batch holding nothing to migrate — the current one never does, then
+			// every bit of a range that changes is 1 and this is the plain pass); a range with old entries is
+			// committed by the model whatever its bit says.
+			tok = "S*:" + string(bits) + " H"
+			m.res.Hit("bt-step:pass-then-cancel-at-head")
 		case ret == "rerun":
-			tok = "P" + strconv.Itoa(hi)
+			tok = "S" + strconv.Itoa(hi) + ":" + string(bits)
+			m.res.Hit("bt-step:pass-cancelled-in-source")
 		default:
 			tok = "P"
 		}
 	}
 	if wfail && tok == "P" {
-		tok = "W*:-"
+		if same01 {
+			tok = "W*:-" // the back-fill batch write failed
+		} else {
+			tok = "FW" // the back-fill batch is committed, a DeletePrefix of clearOldBuckets failed
+		}
 	}
-	if kind == "return" && ret == "rerun" && strings.Join(a0, " ") == strings.Join(a1, " ") {
+	if kind == "return" && ret == "rerun" && same01 {
 		tok = "H"
 	}
+	if kind == "return" && retFull == "failed-nil" {
+		// a nil state with an error: only `return shouldNotRerun, clearOldBuckets(database)` does that — the
+		// pass (if any) is complete, the back-fill batch is committed, a DeletePrefix failed
+		switch first {
+		case "noheight", "none", "error":
+			tok = "FW"
+		default:
+			tok = "P FW"
+		}
+	}
+	m.res.Hit("bt-step-token:" + tok[:1])
 	ans := m.ask("bt.migrate " + tok)
 	m.res.Compared(1)
 	parts := strings.SplitN(ans, " ", 2)
@@ -338,11 +403,20 @@ func (m *btModel) transitionW(c chainSpec, pre, post *memory.Database, kind, ret
 		return
 	}
 	if parts[1] != want && kind == "crash" {
-		// an image taken after the last data commit of the run (only the clearing of the already
-		// empty old buckets follows) is the database of the completed run
+		// an image taken in a LATER loop iteration of the same call: after the complete pass the back-fill
+		// batch was committed and the process died before / inside clearOldBuckets (model: pass, crashClear)
 		m.ask("bt.set " + ht + " " + strings.Join(a0, " "))
-		if p2 := strings.SplitN(m.ask("bt.migrate P"), " ", 2); len(p2) == 2 && p2[1] == want {
+		if p2 := strings.SplitN(m.ask("bt.migrate P FB"), " ", 2); len(p2) == 2 && p2[0] == "crashed" && p2[1] == want {
+			m.res.Hit("bt-step:pass-then-crash-after-backfill")
 			return
+		}
+	}
+	if parts[1] != want && wfail && kind == "return" {
+		// the same for a failed DeletePrefix in a later loop iteration (model: pass, failClear)
+		m.ask("bt.set " + ht + " " + strings.Join(a0, " "))
+		if p2 := strings.SplitN(m.ask("bt.migrate P FW"), " ", 2); len(p2) == 2 && p2[1] == want {
+			m.res.Hit("bt-step:pass-then-clear-failed")
+			parts = p2
 		}
 	}
 	if parts[1] != want {
@@ -350,10 +424,18 @@ func (m *btModel) transitionW(c chainSpec, pre, post *memory.Database, kind, ret
 			"spec": c, "where": where, "pre": a0, "step": tok}, Model: parts[1], Impl: want})
 		return
 	}
-	if kind == "return" && parts[0] != ret {
+	if kind == "return" && parts[0] != retFull {
 		m.res.Mismatch(lib.Mismatch{Sig: "blocktx-return-class", Input: map[string]any{
-			"spec": c, "where": where, "step": tok}, Model: parts[0], Impl: ret})
+			"spec": c, "where": where, "step": tok}, Model: parts[0], Impl: retFull})
 	}
+}
+
+// retClass: ret, with "failed-nil" when Migrate returned an error together with a NIL state.
+func (o btOutcome) retClass() string {
+	if o.ret == "failed" && o.state == nil {
+		return "failed-nil"
+	}
+	return o.ret
 }
 
 // ---- property oracle on a finished migration ------------------------------------------------
@@ -516,6 +598,11 @@ func outsideEveryPass(image chainSpec, b uint64) bool {
 // of blocks without transactions (whether an empty block has its entry depends on the
 // interruption history as long as the known back-fill finding is open; every OTHER key must agree).
 func sameDumpModuloEmpty(c chainSpec, a, b map[string]string) (bool, string) {
+	// since 1b3416d (back-fill of empty blocks) the final database is EQUAL to the undisturbed run's, the
+	// entries of empty blocks included (theorem blocktx_resume_same_result): compare everything
+	if strictTwin {
+		return sameDump(a, b)
+	}
 	ignore := map[string]bool{}
 	tmp := memory.New()
 	for blk, n := range c.Counts {
